@@ -95,21 +95,24 @@ def oracle_recovery(rng):
             x[k + 1] = A @ x[k] + B @ u[k]
         blocks.append((l, np.hstack((x, u))))
     X = st.ref_combine(blocks, ep) if ep else blocks[0][1]
-    Xu, Xs = pykoop.shift_episodes(X, n_inputs=nu, episode_feature=ep)
-    e = 1 if ep else 0
-    Psi = Xu[:, e:].T
+    layout = 'contiguous'
+    if ep and len(blocks) > 1 and rng.random() < 0.6:
+        X = st.interleave_blocks(rng, blocks)          # the episodes' rows interleaved in chunks: same episodes, same answer
+        layout = 'interleaved'
+    # the within-episode consecutive pairs, built independently of the implementation
+    Psi = np.vstack([Xe[:-1] for _, Xe in blocks]).T
     if np.linalg.cond(Psi) > 100:
         return None, None
     K = np.hstack((A, B))
     regs = [('Edmd', pykoop.Edmd(alpha=0)), ('EdmdMeta', pykoop.EdmdMeta()), ('Dmdc', pykoop.Dmdc())]
     if nu == 0:
         regs.append(('Dmd', pykoop.Dmd()))
-    case = {'A': A.tolist(), 'B': B.tolist(), 'X': X.tolist(), 'ep': ep, 'nu': nu}
+    case = {'A': A.tolist(), 'B': B.tolist(), 'X': X.tolist(), 'ep': ep, 'nu': nu, 'layout': layout}
     for name, r in regs:
         r.fit(X, n_inputs=nu, episode_feature=ep)
         err = np.max(np.abs(r.coef_.T - K))
         if err > 1e-7 * max(1.0, np.max(np.abs(K))) * np.linalg.cond(Psi):
-            return f'{name} does not recover [A B] from noise-free data (max error {err:.3g}, cond(Psi)={np.linalg.cond(Psi):.3g})', case
+            return f'{name} does not recover [A B] from noise-free data ({layout} episodes; max error {err:.3g}, cond(Psi)={np.linalg.cond(Psi):.3g})', case
     # pipeline fit = regression on the pipeline's own lifted data
     kp = pykoop.KoopmanPipeline(lifting_functions=[('pl', pykoop.PolynomialLiftingFn(order=2))], regressor=pykoop.Edmd(alpha=0.1))
     kp.fit(X, n_inputs=nu, episode_feature=ep)
